@@ -1,7 +1,7 @@
 (* PV.C15.Examples — non-vacuity: concrete, non-trivial reachable states meeting the hypotheses of the
    theorems of Properties.v (all computed by running the executable model). *)
 From Coq Require Import List Bool Arith PeanoNat Lia.
-From PV Require Import C15.Model C15.Proofs C15.PathModel C15.PathProofs.
+From PV Require Import C15.Model C15.Proofs C15.PathModel C15.PathProofs C15.PathProgress.
 Import ListNotations.
 Local Open Scope nat_scope.
 
@@ -120,4 +120,25 @@ Example path_round_trip_quiescent :
 Proof.
   eexists. split; [vm_compute; reflexivity|]. split; [|split; vm_compute; reflexivity].
   intros t. unfold gets. cbn. destruct t as [|[|t]]; reflexivity.
+Qed.
+
+(* ---- guarded path-level reachability is inhabited by non-trivial states (hypothesis of path_deadlock_free), and the
+   blocked reader of path_writer_blocks_other_process is a state in which path_granted_once_conflicts_gone does NOT apply
+   (a conflicting block exists) while the writer itself can move *)
+Lemma pg_run_preachable_g pof ps ls ps' :
+  preachable_g pof ps -> pg_run pof ps ls = true -> prun pof ps ls = Some ps' -> preachable_g pof ps'.
+Proof.
+  revert ps. induction ls as [|l tl IH]; intros ps R G H; cbn in H, G.
+  - injection H as <-. exact R.
+  - apply andb_true_iff in G. destruct G as [G1 G2]. destruct (pstep pof ps l) as [ps1|] eqn:S; [|discriminate].
+    eapply IH; [|exact G2|exact H]. eapply prg_step; eauto.
+Qed.
+
+Example path_guarded_blocked_state :
+  exists ps, prun idp pinit psched2 = Some ps /\ preachable_g idp ps /\ (exists t, gets ps t <> []) /\
+             penabled idp ps 1 = false /\ penabled idp ps 0 = true.
+Proof.
+  eexists. split; [vm_compute; reflexivity|]. split.
+  - eapply (pg_run_preachable_g idp pinit psched2); [apply prg_init|vm_compute; reflexivity|vm_compute; reflexivity].
+  - split; [exists 0; vm_compute; discriminate|]. split; vm_compute; reflexivity.
 Qed.
